@@ -1,24 +1,26 @@
 #!/bin/bash
 # tools/mutant.sh <mutant dir with repo/ patch.diff demo.py> <check id>...
-# Confirms a seeded change: pinned suite still passes, demo fails with / passes
-# without the change, and runs the given quick checks against the changed
-# worktree (VERIF_REPO) without touching /repo, /verif/evidence or /verif/replays.
+# Confirms a seeded change in a scratch worktree (never in /repo): the worktree
+# is reset to its HEAD and patch.diff applied afresh; the pinned suite must
+# still pass, the demo must fail with and pass without the change; then the
+# given checks run against the changed worktree (VERIF_REPO) with evidence and
+# replays redirected away from /verif.
 set -u
 d="$(cd "$1" && pwd)"; shift
 here="$(cd "$(dirname "${BASH_SOURCE[0]}")/.." && pwd)"
 wt="$d/repo"
 out="$d/verif_out"; rm -rf "$out"; mkdir -p "$out/evidence" "$out/replays"
+git -C "$wt" checkout -q -- . && git -C "$wt" clean -fdq -e __pycache__ >/dev/null
+echo "== demo without change"
+(cd /tmp && /venv/bin/python "$d/demo.py" "$wt" >"$out/demo_without.txt" 2>&1; echo "exit=$?")
+git -C "$wt" apply "$d/patch.diff" || { echo "PATCH DOES NOT APPLY"; exit 3; }
 echo "== suite with change"
 (cd "$wt" && /venv/bin/python -m pytest -q -p no:cacheprovider --timeout=900 --continue-on-collection-errors 2>&1 | tail -1)
 echo "== demo with change"
-(cd /tmp && /venv/bin/python "$d/demo.py" "$wt" >"$out/demo_with.txt" 2>&1; echo "exit=$?"; tail -3 "$out/demo_with.txt")
-git -C "$wt" stash -q
-echo "== demo without change"
-(cd /tmp && /venv/bin/python "$d/demo.py" "$wt" >"$out/demo_without.txt" 2>&1; echo "exit=$?")
-git -C "$wt" stash pop -q
+(cd /tmp && /venv/bin/python "$d/demo.py" "$wt" >"$out/demo_with.txt" 2>&1; echo "exit=$?"; tail -2 "$out/demo_with.txt" | cut -c1-200)
 for id in "$@"; do
   echo "== check $id against changed tree"
   VERIF_REPO="$wt" VERIF_EVIDENCE_DIR="$out/evidence" VERIF_REPLAY_DIR="$out/replays" \
-     "$here/run_check" "$id" --tier "${TIER:-quick}" 2>/dev/null | grep -E "VIOLATION|KNOWN-FINDING|HARNESS|^\[" | cut -c1-260 | head -8
+     "$here/run_check" "$id" --tier "${TIER:-quick}" 2>/dev/null | grep -E "VIOLATION|KNOWN-FINDING|HARNESS|^\[" | cut -c1-260 | head -${SHOW:-4}
   echo "exit=${PIPESTATUS[0]}"
 done
